@@ -24,6 +24,16 @@ ASSUMPTIONS = [
 ]
 
 
+def lookup_by_spi(ctx, rule):
+    """the IKE_SA a datagram is handed to is an element of the controller's table (found by comparing the local SPI of each entry):
+    an IKE_SA that was removed from the table is never handed a message again"""
+    by_spi = ctx.func('ikesacontroller.IkeSaController._get_ike_sa_by_spi')
+    BS = ctx.sval(by_spi)
+    ctx.check(strip_ids(BS.ret()) == strip_ids(BS.expr('next(x for x in self.ike_sas if x.my_spi == %s)' % by_spi.call_params()[0])), rule,
+              'the lookup compares the local SPI of each table entry', key=(rule, 'lookup-compare'), site=ctx.site(by_spi, by_spi.node),
+              detail={'returned': tq.text(BS.ret())})
+
+
 def run(ctx):
     prog, res = ctx.prog, ctx.res
     esc = ctx.escape('engine', kills=common.engine_kills(ctx))
@@ -74,11 +84,7 @@ def run(ctx):
         ctx.check(bool(rets) and not eff and not st_ and all(t == NONE for _, t in rets), 'D1',
                   'a datagram for an unknown SPI is dropped without changing anything', key=('D1', 'unknown-spi-effect'),
                   site=ctx.site(dm, c.node))
-    by_spi = ctx.func('ikesacontroller.IkeSaController._get_ike_sa_by_spi')
-    BS = ctx.sval(by_spi)
-    ctx.check(strip_ids(BS.ret()) == strip_ids(BS.expr('next(x for x in self.ike_sas if x.my_spi == %s)' % by_spi.call_params()[0])), 'D1',
-              'the lookup compares the local SPI of each table entry', key=('D1', 'lookup-compare'), site=ctx.site(by_spi, by_spi.node),
-              detail={'returned': tq.text(BS.ret())})
+    lookup_by_spi(ctx, 'D1')
     # responder creation
     ctors = DM.calls_to(callee='new ikesa.IkeSa')
     ctx.floor('D1 responder IkeSa construction', len(ctors), 1)
@@ -187,6 +193,10 @@ def run(ctx):
     # ---------------------------------------------------------------- D3
     ts = common.typestate(ctx, esc)
     S = ts.S
+    # an entry leaves the table only in state DELETED; an IKE_SA that waits for a response reaches DELETED through the
+    # retransmission timer's give-up edge, so every request-outstanding state has to be covered by that timer
+    from .c09 import timer_coverage
+    timer_coverage(ctx, ts, 'D2')
     ikesa = prog.cls('ikesa.IkeSa')
     live = set()
     nest = 0
